@@ -65,6 +65,18 @@ def logged_once(before, after, op):
     return got[1] == want[1]
 
 
+_raw_snapshot = snapshot
+
+
+def snapshot(c):
+    """The observables must at least be *readable*: a public attribute that raises (or has vanished) is
+    reported as a violation of whatever property is being checked, not as a harness error."""
+    try:
+        return _raw_snapshot(c)
+    except Exception as e:
+        raise Violation('observables-unreadable:%s' % type(e).__name__, {'error': '%s: %s' % (type(e).__name__, e)})
+
+
 class Executor(object):
     """Executes explicit ops against the real HighJumpCompetition with the oracles of one check."""
 
@@ -90,10 +102,16 @@ class Executor(object):
         self.h.update(repr(parts).encode())
 
     def places(self):
-        return {j.bib: j.place for j in self.c.jumpers}
+        try:
+            return {j.bib: j.place for j in self.c.jumpers}
+        except Exception as e:
+            raise Violation('observables-unreadable:%s' % type(e).__name__, {'error': '%s: %s' % (type(e).__name__, e)})
 
     def impl_cards(self):
-        return {j.bib: list(j.attempts_by_height) for j in self.c.jumpers}
+        try:
+            return {j.bib: list(j.attempts_by_height) for j in self.c.jumpers}
+        except Exception as e:
+            raise Violation('observables-unreadable:%s' % type(e).__name__, {'error': '%s: %s' % (type(e).__name__, e)})
 
     def known(self, op):
         return op[0] in ('add', 'bar') or op[1] in self.m.ath
